@@ -265,12 +265,17 @@ fn child_main(argv: &[String]) -> ! {
             let after = std::fs::read(&path).map(|b| b3short(&b)).unwrap_or_default();
             let o1 = observe(&path, "o1");
             // second run: the same options on the file itself, the default options on a copy
-            let cp = path.with_extension("again.mv2");
-            let _ = std::fs::copy(&path, &cp);
-            let d2 = doctor_obs(&path, bits);
-            let o2 = observe(&path, "o2");
-            let d2d = doctor_obs(&cp, bits & 16);
-            let _ = std::fs::remove_file(&cp);
+            // (a dry run leaves the bytes alone: nothing to run again; default options: both runs are the same)
+            let (mut d2, mut o2, mut d2d) = (Value::Null, Value::Null, Value::Null);
+            if bits & 16 == 0 && d1["status"] != "panic" {
+                let cp = path.with_extension("again.mv2");
+                if bits & 15 != 0 { let _ = std::fs::copy(&path, &cp); }
+                d2 = doctor_obs(&path, bits);
+                // what a reader sees is re-observed only when the second run did more than verify
+                if d2["status"] != "clean" { o2 = observe(&path, "o2"); }
+                d2d = if bits & 15 != 0 { doctor_obs(&cp, 0) } else { d2.clone() };
+                let _ = std::fs::remove_file(&cp);
+            }
             println!("OBS {}", json!({"d1": d1, "unchanged": before == after, "o1": o1, "d2": d2, "o2": o2, "d2d": d2d}));
         }
         "observe" => {
@@ -589,16 +594,16 @@ fn evaluate(c: &Case, base: &Base, rr: &RealRun, drv: &mut Option<Driver>, sum: 
                     }
                     if dry != v["unchanged"].as_bool().unwrap_or(false) && dry { diffs.push("dry run changed the file".into()); }
                     // second runs on the model's result
-                    if let Ok(m2) = ask_model(d, c.bits, &m.file) {
+                    if !d2.is_null() { if let Ok(m2) = ask_model(d, c.bits, &m.file) {
                         if verbose { println!("  model d2: {} file={}", m2.line(), m2.file); }
                         let rl2 = real_line(d2);
                         if rl2 != m2.line() { diffs.push(format!("second run (same options): impl [{rl2}] model [{}]", m2.line())); }
-                    }
-                    if let Ok(m3) = ask_model(d, c.bits & 16, &m.file) {
+                    } }
+                    if !d2d.is_null() { if let Ok(m3) = ask_model(d, 0, &m.file) {
                         if verbose { println!("  model d2default: {}", m3.line()); }
                         let rl3 = real_line(d2d);
                         if rl3 != m3.line() { diffs.push(format!("second run (default options): impl [{rl3}] model [{}]", m3.line())); }
-                    }
+                    } }
                 }
                 if diffs.is_empty() { model_same = true; } else {
                     sum.disagreement(&diffs.join(" ;; "), case_json.clone(), &m.line(), &rl);
@@ -642,11 +647,13 @@ fn evaluate(c: &Case, base: &Base, rr: &RealRun, drv: &mut Option<Driver>, sum: 
         let s2 = d2["status"].as_str().unwrap_or("?");
         let want2 = if forced { "healed" } else { "clean" };
         if s2 != want2 { fails.push(("second-run-not-clean", format!("second run with the same options reported {s2}, expected {want2}"))); }
-        match act(o2) {
-            Some(a) => if &a != expect { fails.push(("active-frames-altered", "second doctor run altered the active frames".into())); },
-            None => fails.push(("not-healed", format!("file does not open after the second run: {}", o2["open"]["error"]))),
+        if !o2.is_null() {
+            match act(o2) {
+                Some(a) => if &a != expect { fails.push(("active-frames-altered", "second doctor run altered the active frames".into())); },
+                None => fails.push(("not-healed", format!("file does not open after the second run: {}", o2["open"]["error"]))),
+            }
+            if o2["verify"] != "passed" { fails.push(("not-healed", format!("verify(deep) after the second run: {}", o2["verify"]))); }
         }
-        if o2["verify"] != "passed" { fails.push(("not-healed", format!("verify(deep) after the second run: {}", o2["verify"]))); }
     }
     let nontrivial = !c.faults.is_empty() || !base.built.pending.is_empty();
     if fails.is_empty() {
@@ -769,8 +776,9 @@ fn main() {
     cases.push(Case { shape: sh_clean.clone(), faults: vec![Damage::HdrPtr(3), Damage::Footer(2)], bits: 0 }); // outside the quantifier
     cases.push(Case { shape: sh_plain.clone(), faults: vec![Damage::Wal], bits: 0 });               // outside the quantifier
     cases.push(Case { shape: sh_pend.clone(), faults: vec![Damage::TocSum(1)], bits: 16 });
+    cases.push(Case { shape: sh_clean.clone(), faults: vec![Damage::Index(0, 3)], bits: 9 });       // vacuum + forced time rebuild
     let shapes_quick = [sh_clean.clone(), sh_pend.clone(), sh_plain.clone()];
-    let n = if args.thorough { 520 } else { 20 };
+    let n = if args.thorough { 520 } else { 12 };
     let mut shapes: Vec<Shape> = shapes_quick.to_vec();
     if args.thorough { for _ in 0..9 { shapes.push(gen_shape(&mut rng)); } }
     // every single fault and every option combination appears; the pairing is random
@@ -780,8 +788,9 @@ fn main() {
         let shape = rng.pick(&shapes).clone();
         let singles = single_faults(&mut rng);
         let faults: Vec<Damage> = match rng.below(20) {
+            _ if i < singles.len() => vec![singles[i].clone()],
             0 => vec![],
-            1 | 2 if args.thorough || i % 2 == 0 => { let a = rng.pick(&singles).clone(); let mut b = rng.pick(&singles).clone(); if rng.chance(1, 6) { b = Damage::Wal; } if a == b { vec![a] } else { vec![a, b] } }
+            1 | 2 => { let a = rng.pick(&singles).clone(); let mut b = rng.pick(&singles).clone(); if rng.chance(1, 6) { b = Damage::Wal; } if a == b { vec![a] } else { vec![a, b] } }
             _ => vec![singles[i % singles.len()].clone()],
         };
         let bits = if rng.chance(1, 4) { 0 } else { bits_cycle[i % 32] };
